@@ -118,7 +118,9 @@ class _Capture:
             c = self.ann.make_ann(sd, cd, list(layers))
         except ValueError:
             return None, (self.texts[-1] if len(self.texts) > n0 else None)
-        return c, self.texts[-1]
+        # no new text: make_ann answered from a cache this harness does not know (a changed cache key) - the caller
+        # reports that as a correspondence failure; stream `ann_cache` then judges what such a cache returns
+        return c, (self.texts[-1] if len(self.texts) > n0 else None)
 
 
 def _noop(state, t, params, out):  # pylint: disable=W0613
@@ -269,6 +271,8 @@ def ann_streams(ck: Check) -> None:
             line = f"anntext {sd} {cd} ; {ints(layers)}"
             if c is None:
                 impl = "ERR"
+            elif text is None:
+                impl = f"ok name={c.name} sd={c.state_dims} cd={c.control_dims} pd={c.param_dims} text=<none generated>"
             else:
                 impl = (f"ok name={c.name} sd={c.state_dims} cd={c.control_dims} pd={c.param_dims} "
                         f"text={esc(text)}")
@@ -376,6 +380,11 @@ def ann_float(ck: Check) -> None:
     with _Capture(compile_=True) as cap:
         for sd, cd, layers in archs:
             c, text = cap.make(sd, cd, layers)
+            if not _dims_ok(ck, c, sd, cd, layers, "ann_float"):
+                continue   # never run a controller of other dimensions: without bounds checks it would leave the arrays
+            if text is None:
+                ck.compare("ann_float_pyexec", f"{sd} {cd} {layers}", "text generated", "no text generated (foreign cache?)")
+                continue
             pyfn = exec_text(text, math.atan)
             ck.count("float_archs")
             for k in range(20 if ck.quick else 60):
@@ -392,6 +401,56 @@ def ann_float(ck: Check) -> None:
                 ops.append(f"annrunf {sd} {cd} ; {ints(layers)} ; {ints(map(f2b, theta))} ; {ints(map(f2b, s))}")
                 ctx.append((out.tolist(), pout, {"sd": sd, "cd": cd, "layers": layers, "params": theta, "state": s}))
                 ck.case(ops[-1])
+    _float_compare(ck, ops, ctx)
+
+
+def _dims_ok(ck: Check, c, sd, cd, layers, stream) -> bool:
+    """the controller handed out for (sd, cd, layers) must BE that network: same dimensions and parameter count"""
+    want = (sd, cd, param_count(sd, cd, layers))
+    got = (c.state_dims, c.control_dims, c.param_dims)
+    return ck.spec(got == want, "ann_dims",
+                   f"make_ann({sd}, {cd}, {layers}) returned controller '{c.name}' with (state, control, param) dims {got}, "
+                   f"the requested network has {want}", {"stream": stream, "sd": sd, "cd": cd, "layers": layers})
+
+
+def ann_cache(ck: Check) -> None:
+    """`make_ann` as a user calls it - repeatedly, in one process, WITHOUT this harness clearing its cache: requests that
+    share some but not all of (state_dims, control_dims, layers) must each get their own network, and a repeated
+    request an equivalent one.  (The other streams delete the cache entry to see the generated text.)"""
+    import numpy as np
+    from moptipyapps.dynamic_control.controllers.ann import make_ann
+    rng = ck.rng
+    base = [(2, 1, [2]), (2, 2, [2]), (3, 2, [2]), (2, 2, [3]), (2, 2, [2, 2]), (2, 2, []), (2, 1, []), (3, 1, []),
+            (4, 1, [1]), (4, 2, [1]), (2, 2, [2]), (2, 1, [2]), (3, 1, [2, 1]), (3, 1, [1, 2]), (3, 3, [1, 2])]
+    if not ck.quick:
+        base += [(rng.randint(2, 4), rng.randint(1, 4), [rng.randint(1, 3) for _ in range(rng.randint(0, 2))])
+                 for _ in range(40)]
+    order = list(base)
+    rng.shuffle(order)
+    ops, ctx = [], []
+    for sd, cd, layers in base + order:     # fixed order first (replayable by reading), then a shuffled second pass
+        try:
+            c = make_ann(sd, cd, list(layers))
+        except ValueError as e:
+            ck.spec(False, "ann_cache_rejected", f"make_ann({sd}, {cd}, {layers}) raised {e!r}", {"arch": [sd, cd, layers]})
+            continue
+        ck.count("cache_requests")
+        if not _dims_ok(ck, c, sd, cd, layers, "ann_cache"):
+            continue
+        for k in range(4):
+            theta = [rng.randint(-64, 64) / 8 for _ in range(c.param_dims)]
+            s = [rng.randint(-64, 64) / 16 for _ in range(sd)]
+            st, th = np.array(s), np.array(theta)
+            out = np.full(cd, np.nan)
+            c.controller(st, 0.0, th, out)
+            ops.append(f"annrunf {sd} {cd} ; {ints(layers)} ; {ints(map(f2b, theta))} ; {ints(map(f2b, s))}")
+            ctx.append((out.tolist(), None, {"sd": sd, "cd": cd, "layers": layers, "params": theta, "state": s,
+                                             "stream": "ann_cache"}))
+            ck.case(ops[-1])
+    _float_compare(ck, ops, ctx)
+
+
+def _float_compare(ck: Check, ops, ctx) -> None:
     outs = ck.model(ops, drv=DRV)
 
     def close(a, b):
@@ -407,8 +466,9 @@ def ann_float(ck: Check) -> None:
             continue
         ck.compare("ann_float", line[:300], "close" if close(impl, val) else f"model {val}", "close"
                    if close(impl, val) else f"impl {impl}")
-        ck.compare("ann_float_pyexec", line[:300], "close" if close(impl, pout) else f"exec {pout}",
-                   "close" if close(impl, pout) else f"impl {impl}")
+        if pout is not None:
+            ck.compare("ann_float_pyexec", line[:300], "close" if close(impl, pout) else f"exec {pout}",
+                       "close" if close(impl, pout) else f"impl {impl}")
         ck.spec(close(impl, spec), "ann_layered_float",
                 f"compiled ANN controller {impl} differs from the layered network {spec} (tol 1e-9)", c)
 
@@ -643,6 +703,7 @@ def min_real(ck: Check) -> None:
 def streams(ck: Check) -> None:
     ann_streams(ck)
     ann_float(ck)
+    ann_cache(ck)
     min_real(ck)
     min_exact(ck)
 
